@@ -34,6 +34,13 @@ theorem ops_atomic : ∀ m ∈ atomicOps, m ∈ Verif.WalletLock.lockedMethods :
 `isLocked`, `lockUTXOs`, `cleanLockedUTXOs`, `selectUTXOs`, …) outside such a critical section -/
 theorem locked_only_under_mutex : Verif.WalletLock.discipline = true := by decide
 
+/-- in particular none of them — `SplitUTXO` with its pool insertion and broadcast included —
+gives the mutex up between its first selection and its reservation: the body contains no
+`sw.mu.Unlock()` besides the deferred one and starts no goroutine -/
+theorem critical_sections_unbroken :
+    ∀ w ∈ Verif.Extracted.walletMethods, w.method = true → w.name ∈ atomicOps →
+      w.lockFirst = true ∧ w.unlocks = 0 ∧ w.goStmts = 0 := by decide
+
 /-- and no critical section calls a method that takes the mutex again -/
 theorem no_reentrant_lock : Verif.WalletLock.noReentry = true := by decide
 
